@@ -102,9 +102,9 @@ PROPS["C13"] = dict(
 )
 
 PROPS["C15"] = dict(
-    slices=["transition", "tsp_ranges"],
+    slices=["transition", "tsp_ranges", "transition_objective"],
     witness_family="trans",
-    level_text="bookkeeping half: Verus proves that every rotation-cycle operation of solution/src/transition (update_vehicle, add_vehicle_to_own_cycle, remove_vehicle, add_vehicle_at_the_end, move_vehicle, replace_cycle, three_opt) preserves the representation invariant written from the property (cycles duplicate-free and pairwise disjoint, lookup and empty-cycle list match the cycles, every cycle counter and both totals equal their recomputed values); 'optimisation never worsens' is a property of rapid_solve's acceptance rule and is assumed; the 3-opt index ranges of TransitionCycleNeighborhood::neighbors_of (R8 fragments) are total for every cycle length and only generate triples satisfying three_opt's precondition; Transition::one_cluster_per_maintenance is not under contract",
+    level_text="bookkeeping half: Verus proves that every rotation-cycle operation of solution/src/transition (update_vehicle, add_vehicle_to_own_cycle, remove_vehicle, add_vehicle_at_the_end, move_vehicle, replace_cycle, three_opt) preserves the representation invariant written from the property (cycles duplicate-free and pairwise disjoint, lookup and empty-cycle list match the cycles, every cycle counter and both totals equal their recomputed values); 'optimisation never worsens': the two searches are built with the objectives (maintenance violation, then total maintenance counter) for the cycles of a type and (cycle counter) for the 3-opt inside one cycle, each level 1 * the transition's / cycle's own cached total (slice transition_objective; the lexicographic comparison is verified in slice objective_eval, run under C08); that rapid_solve's search never returns something worse in that order is assumed; the 3-opt index ranges of TransitionCycleNeighborhood::neighbors_of (R8 fragments) are total for every cycle length and only generate triples satisfying three_opt's precondition; Transition::one_cluster_per_maintenance is not under contract",
     level_note="trusted: vstd, A-im (im::HashMap shim with Map view), SeqIter shim incl. filter, Option::copied / Vec::extend / Vec::retain specs, stubs Tour::{maintenance_counter,start_depot,end_depot}, TransitionCycle::iter; caller-side: the vehicle passed to update_vehicle/remove_vehicle is not a key of updated_tours",
     scope="solution/src/transition.rs (get_successor_of), transition/transition_cycle.rs, transition/modifications.rs",
     assumptions=A_COMMON + [
@@ -162,7 +162,7 @@ PROPS["C07"] = dict(
 
 ALL_SLICES = ["time", "network", "net_enum", "limits", "json_out", "tour_pos", "tour_mod", "path", "tour_ctor", "formation", "transition",
               "tsp_ranges", "admission", "reassign", "pipeline", "mcf_bounds", "sched_guard", "depot_usage", "network_new", "json_writer",
-              "objective", "train_formation_update", "update_tours", "remove_segment", "spawn_vehicle", "add_path", "override_reassign", "sched_ctor", "depot_ops", "fit_reassign", "dummy_ops", "objective_eval", "swaps", "swaps_sem"]
+              "objective", "train_formation_update", "update_tours", "remove_segment", "spawn_vehicle", "add_path", "override_reassign", "sched_ctor", "depot_ops", "fit_reassign", "dummy_ops", "objective_eval", "swaps", "swaps_sem", "transition_objective"]
 PROPS["C06"] = dict(
     slices=["time", "network_new", "tsp_ranges", "mcf_bounds", "limits", "objective", "pipeline", "json_out", "transition", "sched_ctor"],
     thorough_slices=ALL_SLICES,
